@@ -281,6 +281,14 @@ func runErrflow(c *Ctx, cfg errflowCfg) {
 							c.OK(cfg.rule, key, pos, "error of "+short+" is handed to a local failure helper")
 							continue
 						}
+						if cfg.valueConversion[id] && res.Len() >= 2 {
+							if okc, why := checkValueConversion(c, fn, call); okc {
+								c.OK(cfg.rule, key, pos, "error of "+short+" is not tested but converted through the nil value: the nil branch returns a non-nil error")
+							} else {
+								c.Bad(cfg.rule, key, pos, "error of "+short+" is never tested and "+why)
+							}
+							continue
+						}
 						c.Bad(cfg.rule, key, pos, "error result of "+short+" is never tested nor returned (assigned and overwritten or ignored)")
 						continue
 					}
